@@ -93,8 +93,18 @@ func (e *Engine) load(pkgPaths []string) error {
 		e.ssaPkgs[sp.Pkg.Path()] = sp
 		e.allTypes[sp.Pkg.Path()] = sp.Pkg
 	}
-	for _, path := range pkgPaths {
-		_ = path
+	var walk func(p *types.Package)
+	walk = func(p *types.Package) {
+		if p == nil || e.allTypes[p.Path()] == p {
+			return
+		}
+		e.allTypes[p.Path()] = p
+		for _, imp := range p.Imports() {
+			walk(imp)
+		}
+	}
+	for _, p := range pkgs {
+		walk(p.Types)
 	}
 	for _, p := range pkgs {
 		if sp := e.ssaPkgs[p.PkgPath]; sp != nil {
